@@ -236,6 +236,10 @@ def call_override(I, fn, vals, st, fr, e):
             s_no.unk = s_no.unk + ((("FiniteFunction::new rejects", show_term(table.t)[:120], show_poly(target.p)), True),)
             s_no.note(f"FiniteFunction::new rejects: some element of {show_term(table.t)[:160]} >= {show_poly(target.p)}")
             s_no.add_ge(t_len(table.t) - 1)
+            m = Poly.atom(("max", table.t))
+            s_no.add_ge(m - target.p)          # the greatest element is outside the codomain
+            for b in ubs(s_no, table.t):
+                s_no.add_ge(b - m - 1)
             s_yes = st.copy()
             s_yes.add_bound(table.t, target.p)
             return [(s_no, NONE, None), (s_yes, some(v), None)]
